@@ -48,6 +48,7 @@ class Job:
         self.bounds = bounds      # free text of the bound of this obligation
         self.expect_fail = list(expect_fail)  # regexes: a failing check matching each must exist (must-panic)
         self.genfile = None       # generated file the harness lives in when it is not gen_<feature>.rs
+        self.prio = 5             # lower runs earlier (what must be decided even when the run budget is short)
         self.concrete = None      # harness whose inputs are fully determined: the Rust expression of its playback values (e.g. "vec![]")
 
 
@@ -227,7 +228,19 @@ def direct_available():
         and shutil.which("cbmc") and not os.environ.get("VERIF_NO_DIRECT")
 
 
-def run_job_direct(ws, job, md):
+def mem_workers(per_worker_gb=4):
+    """number of solver processes the machine can hold (MemAvailable / per_worker_gb), at most NCPU - 2"""
+    try:
+        for line in open("/proc/meminfo"):
+            if line.startswith("MemAvailable:"):
+                gb = int(line.split()[1]) / 1048576.0
+                return max(2, min(NCPU - 2, int(gb // per_worker_gb)))
+    except Exception:
+        pass
+    return max(2, NCPU - 2)
+
+
+def run_job_direct(ws, job, md, timeout=None):
     """The steps kani-driver performs for one harness (goto-cc link, entry point, CPROVER library,
     function-body generation, back-edge normalisation, cbmc), run on the goto program that the one
     all-harness codegen build produced - no cargo invocation, no build lock, no recompilation.
@@ -262,7 +275,8 @@ def run_job_direct(ws, job, md):
     jout = os.path.join(gdir, job.name + ".json")
     shcmd = "ulimit -v %d; exec %s > %s 2>> %s" % (job.mem_gb * 1024 * 1024, " ".join("'%s'" % c for c in cmd), jout, log)
     tc = time.time()
-    rc, _, dt = sh(["bash", "-c", shcmd], cwd=ws.hk, timeout=job.timeout)
+    eff_timeout = timeout or job.timeout
+    rc, _, dt = sh(["bash", "-c", shcmd], cwd=ws.hk, timeout=eff_timeout)
     res.solver_s = round(time.time() - tc, 2)
     res.wall_s = time.time() - t0
     try:
@@ -271,7 +285,7 @@ def run_job_direct(ws, job, md):
         pass
     if rc == -9:
         res.status = "timeout"
-        res.note = "exceeded %ds" % job.timeout
+        res.note = ("exceeded %ds" % job.timeout) if eff_timeout >= job.timeout else ("exceeded run budget (stopped after %ds)" % eff_timeout)
         return res
     try:
         data = json.load(open(jout))
@@ -350,10 +364,10 @@ def run_job_direct(ws, job, md):
     return res
 
 
-def run_jobs(ws, features, jobs, workers=None, progress=True, need_playback=None):
-    """need_playback(job, result) -> bool: for a refuted harness, whether a concrete playback test is
-    wanted (then the harness is re-run through `cargo kani --harness ... --concrete-playback=print`)."""
-    workers = workers or max(2, min(NCPU - 2, len(jobs)))
+def run_jobs(ws, features, jobs, workers=None, progress=True, need_playback=None, deadline=None):
+    """deadline (epoch seconds): jobs not finished by then are stopped / not started and come back as status
+    'timeout' with a note starting 'exceeded run budget' (= not explored)."""
+    workers = min(workers or max(2, min(NCPU - 2, len(jobs))), mem_workers())
     full = resolve_harness_names(ws, [j.name for j in jobs])
     mds = harness_metadata(ws) if direct_available() else {}
     results = []
@@ -363,18 +377,37 @@ def run_jobs(ws, features, jobs, workers=None, progress=True, need_playback=None
         if job.name in full:
             # run with the fully qualified name so that --exact matches
             job._full = full[job.name]
+        left = None
+        if deadline:
+            left = deadline - time.time()
+            if left < 10:
+                r = Result(job)
+                r.status = "timeout"
+                r.note = "exceeded run budget (not started)"
+                return r
+        eff = min(job.timeout, int(left)) if left is not None else job.timeout
         if job.name in mds:
-            r = run_job_direct(ws, job, mds[job.name])
-            if r is not None and r.status == "error" and "out of memory" in r.note:
+            r = run_job_direct(ws, job, mds[job.name], timeout=eff)
+            if r is not None and r.status == "error" and "out of memory" in r.note and (not deadline or deadline - time.time() > 60):
                 # memory pressure from the neighbours: one more attempt (the pool is usually emptier by now)
                 time.sleep(5)
-                r = run_job_direct(ws, job, mds[job.name])
+                r = run_job_direct(ws, job, mds[job.name], timeout=min(eff, int(deadline - time.time())) if deadline else eff)
             if r is not None:
                 return r
-        return run_job(ws, features, job)
+        saved = job.timeout
+        job.timeout = eff
+        try:
+            r = run_job(ws, features, job)
+        finally:
+            job.timeout = saved
+        if r.status == "timeout" and eff < saved:
+            r.note = "exceeded run budget (stopped after %ds)" % eff
+        return r
 
+    order = {j.name: i for i, j in enumerate(jobs)}
+    queue = sorted(jobs, key=lambda j: (j.prio, order[j.name]))
     with cf.ThreadPoolExecutor(max_workers=workers) as ex:
-        futs = {ex.submit(one, j): j for j in jobs}
+        futs = {ex.submit(one, j): j for j in queue}
         for fu in cf.as_completed(futs):
             r = fu.result()
             results.append(r)
@@ -382,7 +415,6 @@ def run_jobs(ws, features, jobs, workers=None, progress=True, need_playback=None
                 sys.stderr.write("[%6.1fs] %-8s %-48s solver=%.1fs wall=%.1fs %s\n" % (
                     time.time() - t0, r.status, r.job.name, r.solver_s, r.wall_s, r.note))
                 sys.stderr.flush()
-    order = {j.name: i for i, j in enumerate(jobs)}
     results.sort(key=lambda r: order[r.job.name])
     return results
 
